@@ -1287,6 +1287,7 @@ func (p *Posix) CreateMultipartUpload(ctx context.Context, mpu s3response.Create
 	if err != nil {
 		return s3response.InitiateMultipartUploadResult{}, fmt.Errorf("stat bucket: %w", err)
 	}
+	verifhook.At("posix.createmultipart.bucketchecked")
 
 	if strings.HasSuffix(*mpu.Key, "/") {
 		// directory objects can't be uploaded with mutlipart uploads
@@ -2942,6 +2943,7 @@ func (p *Posix) PutObject(ctx context.Context, po s3response.PutObjectInput) (s3
 	if err != nil {
 		return s3response.PutObjectOutput{}, fmt.Errorf("stat bucket: %w", err)
 	}
+	verifhook.At("posix.putobject.bucketchecked")
 
 	tags, err := backend.ParseObjectTags(getString(po.Tagging))
 	if err != nil {
